@@ -951,6 +951,10 @@ func (a Conditions) then(b Conditions) Conditions {
 		res = append(res, bdcs...)
 		return res
 	}
+	// the sequences b continues: what matched of every data condition of a. A negated filter did not
+	// match anything, it is no position b could follow when something else matched, and a sequence
+	// that another one continues is not where a ended.
+	anchors := [][]DataConditionElement(nil)
 	for _, acc := range adcs {
 		adc := acc.(*DataCondition)
 		l := len(adc.Elements)
@@ -958,11 +962,31 @@ func (a Conditions) then(b Conditions) Conditions {
 			res = append(res, acc)
 			l--
 		}
+		anchors = append(anchors, adc.Elements[:l])
+	}
+	isPrefix := func(p, s []DataConditionElement) bool {
+		if len(p) > len(s) {
+			return false
+		}
+		for i := range p {
+			if !(&DataCondition{Elements: p[i : i+1]}).equal(&DataCondition{Elements: s[i : i+1]}) {
+				return false
+			}
+		}
+		return true
+	}
+anchors:
+	for i, anchor := range anchors {
+		for j, other := range anchors {
+			if i != j && isPrefix(anchor, other) && (len(anchor) != len(other) || j < i) {
+				continue anchors
+			}
+		}
 		for _, bcc := range bdcs {
 			bdc := bcc.(*DataCondition)
 			res = append(res, &DataCondition{
 				Inverted: bdc.Inverted,
-				Elements: append(append([]DataConditionElement(nil), adc.Elements[:l]...), bdc.Elements...),
+				Elements: append(append([]DataConditionElement(nil), anchor...), bdc.Elements...),
 			})
 		}
 	}
